@@ -9,30 +9,36 @@
 (*        invariant ModelKeep = the model-level verdict on pickling.          *)
 (*   MC_C12_session_sim   : -simulate beyond the bound, export at ExportLen.  *)
 EXTENDS Session
-CONSTANTS MaxLen, ExportLen
+CONSTANTS MaxLen, ExportLen,
+          PreKind   \* 1: three fixed calls (add foo, add qux, make 3 foo), every call free afterwards
+                    \* 2: five fixed calls (... then modify foo through the OTHER handle, make 5 foo: an old and a new
+                    \*    quantity under one spelling), afterwards only calls on quantities and string reads (no edits)
+NPre == IF PreKind = 1 THEN 3 ELSE 5
 
 Pre(n) == CASE n = 1 -> RegCall(0, Add("foo", 2, TRUE, "L"))
             [] n = 2 -> RegCall(0, Add("qux", 2, FALSE, "T"))
             [] n = 3 -> Make(0, "foo")
+            [] n = 4 -> RegCall(1, Modify("foo", 4))
+            [] n = 5 -> Make(0, "foo")
 Free ==
   \/ \E h \in Handles :
-       \/ \E s \in Syms, sc \in Scales, px \in BOOLEAN, d \in Dims : RegCall(h, Add(s, sc, px, d))
-       \/ \E s \in Keys, sc \in Scales : RegCall(h, Modify(s, sc))
-       \/ \E s \in Keys : RegCall(h, Remove(s))
-       \/ \E s \in Keys : RegCall(h, Contains(s))
+       \/ (PreKind = 1 /\ \E s \in Syms, sc \in Scales, px \in BOOLEAN, d \in Dims : RegCall(h, Add(s, sc, px, d)))
+       \/ (PreKind = 1 /\ \E s \in Keys, sc \in Scales : RegCall(h, Modify(s, sc)))
+       \/ (PreKind = 1 /\ \E s \in Keys : RegCall(h, Remove(s)))
+       \/ (PreKind = 1 /\ \E s \in Keys : RegCall(h, Contains(s)))
        \/ \E p \in Probes : RegCall(h, Construct(p))
        \/ \E p \in Probes : Make(h, p)
   \/ \E i \in DOMAIN objs, p \in Probes : To(i, p) \/ ConvIn(i, p)
-  \/ \E i \in DOMAIN objs, j \in DOMAIN objs : Plus(i, j) \/ Times(i, j) \/ Cmp("eq", i, j) \/ Cmp("lt", i, j)
+  \/ \E i \in DOMAIN objs, j \in DOMAIN objs : Plus(i, j) \/ Times(i, j) \/ Over(i, j) \/ ToU(i, j) \/ ConvInU(i, j) \/ Cmp("eq", i, j) \/ Cmp("lt", i, j)
   \/ \E i \in DOMAIN objs : Dup("copy", i) \/ Dup("deepcopy", i) \/ Pickle(i) \/ InBase(i)
 SNext == /\ Len(hist) < MaxLen
-         /\ IF Len(hist) < 3 THEN Pre(Len(hist) + 1) ELSE Free
+         /\ IF Len(hist) < NPre THEN Pre(Len(hist) + 1) ELSE Free
 SSpec == SInit /\ [][SNext]_svars
 
 SView == <<user, lut, ucache, objs>>
 Events(h, a) == [n \in DOMAIN h |-> [e |-> h[n], h |-> a[n].h]]
 \* transition cover: one witness per explored transition, with the model's own result of the last call
-ExportTrans == Len(hist') > 3 => PrintT(ToJson([tag |-> "HIST", ev |-> Events(hist', aux'), res |-> sres', objs |-> [n \in DOMAIN objs' |-> Proj(objs'[n])]]))
+ExportTrans == Len(hist') > NPre => PrintT(ToJson([tag |-> "HIST", ev |-> Events(hist', aux'), res |-> sres', objs |-> [n \in DOMAIN objs' |-> Proj(objs'[n])]]))
 ExportHist == Len(hist) = ExportLen => PrintT(ToJson([tag |-> "HIST", ev |-> Events(hist, aux), res |-> sres, objs |-> [n \in DOMAIN objs |-> Proj(objs[n])]]))
 \* model-level verdict (expected to be violated by the transcription of today's pickling: reported, not fatal)
 ModelKeep == \A i \in DOMAIN objs : PickleKeeps(i)
